@@ -1,5 +1,6 @@
 import MorfuseModel.Container.Refine
 import MorfuseModel.HashSet.Enum
+import MorfuseModel.Str.Refine
 import MorfuseModel.Gen.Primes
 /-!
 # C18 — core containers and strings behave like their abstract models
@@ -228,3 +229,103 @@ example :
   decide
 
 end Morfuse.HashSet
+
+/-!
+## Part 3 — `mfuse::str` (src/Common/str.cpp): copy-on-write buffers
+
+`U` is any finite duplicate-free family of `str` objects (`tmpH`, the temporary of an expression, is
+not one of them); a history is any list of operations that names only strings of `U`
+(`ValidAll U ops`; the counts of `str(text, n)` / `assign(text, n)` do not exceed `strlen(text)`).
+`cstr s x` is what string `x` reads in state `s`.  The abstract model is a family of **independent**
+byte strings `Nat → List UInt8`: `Spec.step` changes only the string(s) the operation names.
+-/
+namespace Morfuse.Str
+variable {U : List Nat}
+
+/-- **Refinement and isolation.**  After any history every string reads exactly what an independent
+    abstract byte string would after the same history — whatever blocks were shared on the way
+    (copy construction, `operator=`, `operator+`, moves), with spare capacity or not.  Since the
+    abstract strings are independent, this *is* "strings that share storage never observe each
+    other's modifications". -/
+theorem C18_str_refinement (hU : U.Nodup) (ht : tmpH ∉ U) {ops : List Op} (hv : ValidAll U ops) {s : State}
+    (h : run init ops = .ok s) : ∀ x ∈ U, cstr s x = Spec.run (fun _ => []) ops x :=
+  (run_refines ops (hinv_init hU ht) hv (fun x _ => by simp [cstr, init, ptr]) h).2
+
+/-- **Isolation, stated directly.**  In any reachable state, an operation through one handle never
+    changes what any other handle reads (nor its `length()`): only the strings the operation names
+    as destination (`targets`) can change. -/
+theorem C18_str_isolation (hU : U.Nodup) (ht : tmpH ∉ U) {s s' : State} (hr : Reachable U s) {op : Op}
+    (hv : Valid U op) (h : step s op = .ok s') :
+    ∀ x ∈ U, x ∉ targets op → cstr s' x = cstr s x ∧ length s' x = length s x := by
+  intro x hx hxt
+  rcases step_refines (reachable_hinv hU ht hr) op hv with ⟨_, e, he⟩ | ⟨_, s1, h1, hi1, hs1⟩
+  · rw [he] at h; cases h
+  · rw [h1] at h; cases h
+    have hc : cstr s' x = cstr s x := by rw [hs1 x hx, spec_step_frame _ _ _ hxt]
+    refine ⟨hc, ?_⟩
+    rw [hi1.inv.length_eq (hi1.mem hx), (reachable_hinv hU ht hr).inv.length_eq (List.mem_cons_of_mem _ hx), hc]
+
+/-- One step from any reachable state is the abstract string operation on the named string
+    (`append` = `++`, `CapLength n` = `take n`, `-= n` = drop the last `n`, `strip` = trim,
+    `tolower/toupper` = map, `operator[] =` = point update, `str(s, a, b)` = the clamped slice, …). -/
+theorem C18_str_step_refinement (hU : U.Nodup) (ht : tmpH ∉ U) {s s' : State} (hr : Reachable U s) {op : Op}
+    (hv : Valid U op) (h : step s op = .ok s') : ∀ x ∈ U, cstr s' x = Spec.step (cstr s) op x := by
+  rcases step_refines (reachable_hinv hU ht hr) op hv with ⟨_, e, he⟩ | ⟨_, s1, h1, _, hs1⟩
+  · rw [he] at h; cases h
+  · rw [h1] at h; cases h; exact hs1
+
+/-- **Reference counts count handles; nothing leaks, nothing dangles.**  In every reachable state each
+    live block has `refcount + 1` equal to the number of `str` objects pointing at it (so at least
+    one), its `alloced` is the allocated capacity, `len = strlen`, and the terminator fits; every
+    non-null `m_data` points at a live block; `length()` is the length of what `c_str()` shows. -/
+theorem C18_str_refcount (hU : U.Nodup) (ht : tmpH ∉ U) {s : State} (hr : Reachable U s) :
+    (∀ p d, s.heap.get? p = some d →
+      d.refcount + 1 = (U.countP fun h => ptr s h = p) ∧ d.alloced = d.cap ∧ d.len = d.bytes.length ∧
+      d.bytes.length + 1 ≤ d.cap) ∧
+    (∀ h ∈ U, ptr s h ≠ 0 → ∃ d, s.heap.get? (ptr s h) = some d) ∧
+    (∀ h ∈ U, length s h = (cstr s h).length) := by
+  have hi := reachable_hinv hU ht hr
+  refine ⟨fun p d hd => ?_, fun h hh hp => hi.inv.live h (hi.mem hh) hp, fun h hh => hi.inv.length_eq (hi.mem hh)⟩
+  obtain ⟨hp0, _, hw, hc⟩ := hi.inv.heap p d hd
+  refine ⟨?_, hw.1, hw.2.1, hw.2.2⟩
+  rw [hc]
+  unfold cnt
+  have : ¬ ptr s tmpH = p := by rw [hi.tmp]; omega
+  simp [List.countP_cons, this]
+
+/-- **Faults are exactly the `assert(m_data)` guards**: in a reachable state an operation faults iff
+    it is `tolower()`, `toupper()` or a write through the non-const `operator[]` on a string whose
+    `m_data` is null.  In particular no history overflows a buffer, uses a freed block or reads
+    characters nothing wrote. -/
+theorem C18_str_faults_exact (hU : U.Nodup) (ht : tmpH ∉ U) {s : State} (hr : Reachable U s) {op : Op}
+    (hv : Valid U op) : (∃ e, step s op = .error e) ↔ UB s op := by
+  rcases step_refines (reachable_hinv hU ht hr) op hv with ⟨hu, he⟩ | ⟨hu, s1, h1, _, _⟩
+  · exact ⟨fun _ => hu, fun _ => he⟩
+  · refine ⟨?_, fun h => absurd h hu⟩
+    rintro ⟨e, he⟩
+    rw [h1] at he; cases he
+
+/-- non-vacuity: "hello" is capped to 2 characters (spare capacity), copied (shared block), the
+    copy is appended to, copied again, shortened, self-appended — the history is defined and every
+    string reads what an independent string would ("he" for the original) -/
+example : ∃ s, run init [.ctorText 0 [104, 101, 108, 108, 111], .capLength 0 2, .ctorCopy 1 0, .appendChar 1 120,
+      .assignStr 2 1, .minus 2 1, .appendStr 1 1] = .ok s ∧
+    cstr s 0 = [104, 101] ∧ cstr s 1 = [104, 101, 120, 104, 101, 120] ∧ cstr s 2 = [104, 101] := by
+  have hU : ([0, 1, 2] : List Nat).Nodup := by decide
+  have ht : tmpH ∉ ([0, 1, 2] : List Nat) := by decide
+  have hv : ValidAll [0, 1, 2] [.ctorText 0 [104, 101, 108, 108, 111], .capLength 0 2, .ctorCopy 1 0, .appendChar 1 120,
+      .assignStr 2 1, .minus 2 1, .appendStr 1 1] := by
+    intro op hop
+    simp only [List.mem_cons, List.not_mem_nil, or_false] at hop
+    rcases hop with rfl | rfl | rfl | rfl | rfl | rfl | rfl <;> simp [Valid]
+  obtain ⟨s, hs⟩ := run_defined (U := [0, 1, 2]) _ (hinv_init hU ht) hv (by
+    intro op hop
+    simp only [List.mem_cons, List.not_mem_nil, or_false] at hop
+    rcases hop with rfl | rfl | rfl | rfl | rfl | rfl | rfl <;> simp [Unguarded])
+  have hr := C18_str_refinement hU ht hv hs
+  refine ⟨s, hs, ?_, ?_, ?_⟩
+  · rw [hr 0 (by decide)]; decide
+  · rw [hr 1 (by decide)]; decide
+  · rw [hr 2 (by decide)]; decide
+
+end Morfuse.Str
